@@ -412,7 +412,7 @@ class MinMaxAggregator:
         for blit in rule.body:
             if blit == agg:
                 continue
-            blit_vars = set(collect_ast(blit, "Variable"))
+            blit_vars = set(x for x in collect_ast(blit, "Variable") if x.name != "_")
             if len(blit_vars.intersection(inside_variables)) != 0:
                 rest_vars.update(blit_vars)
                 lits_with_vars.append(blit)
